@@ -6,3 +6,9 @@ import MicroHttp.Props.Tables
 #print axioms MicroHttp.C17.addRoute_fresh
 #print axioms MicroHttp.C17.handle_spec
 #print axioms MicroHttp.Tables.no_shared_state
+#print axioms MicroHttp.Tables.method_to_str
+#print axioms MicroHttp.Tables.router_add_key
+#print axioms MicroHttp.Tables.router_add
+#print axioms MicroHttp.Tables.router_dispatch_key
+#print axioms MicroHttp.Tables.router_handle
+#print axioms MicroHttp.Tables.uri_abs_path
